@@ -33,6 +33,24 @@ class Store:
         return unparse(self.node)[:120]
 
 
+def bound_arg(call: ast.Call, callee, pname: str):
+    """expression bound to parameter `pname` of `callee` at this call (None if it cannot be told)"""
+    a = callee.node.args
+    params = [x.arg for x in list(a.posonlyargs) + list(a.args)]
+    if callee.cls and not callee.is_static and params:
+        params = params[1:]
+    for k in call.keywords:
+        if k.arg == pname:
+            return k.value
+        if k.arg is None:
+            return None
+    if any(isinstance(x, ast.Starred) for x in call.args):
+        return None
+    if pname in params and params.index(pname) < len(call.args):
+        return call.args[params.index(pname)]
+    return None
+
+
 def root_of(e: ast.AST):
     """(root Name or None, depth) of an access path a.b[c].d -> ('a', 3)"""
     d = 0
